@@ -241,7 +241,7 @@ def audit_sources():
 # correspondence
 # ---------------------------------------------------------------------------
 
-VERDICT_ITEM = re.compile(r"\((\d+),\s*\((true|false),\s*(true|false)\)\)")
+VERDICT_ITEM = re.compile(r"\(\s*(\d+)(?:%nat)?\s*,\s*\(\s*(true|false)\s*,\s*(true|false)\s*\)\s*\)")
 
 
 def compile_shard(vfile):
@@ -258,6 +258,8 @@ def compile_shard(vfile):
         body = m.group(1)
         for it in VERDICT_ITEM.finditer(body):
             fails.append((int(it.group(1)), it.group(2) == "true", it.group(3) == "true"))
+        if not fails and re.sub(r"\s", "", body) != "[]":
+            return vfile, 98, "verdict not understood:\n" + body[:2000], [], time.time() - t0
     return vfile, rc, out, fails, time.time() - t0
 
 
